@@ -2,4 +2,4 @@
 From Coq Require Import Extraction ExtrOcamlBasic ExtrOcamlNativeString.
 From KV Require Import Lib.Str Model.Preserve Model.Output.
 Separate Extraction Output.createoutput_ops Output.op_render Output.crash_kill Output.crash_exn Output.run Output.jobs_okb
-  Output.createoutput_jobs Output.is_tmp Output.fs_get.
+  Output.createoutput_jobs Output.is_tmp Output.fs_get Output.filesync_ops Output.filesync_jobs.
